@@ -245,20 +245,13 @@ pub fn regexp_test(
     this: JsValue,
     args: &[JsValue],
 ) -> Result<Guarded, JsError> {
-    let JsValue::Object(ref obj) = this else {
-        return Err(JsError::type_error("this is not a RegExp"));
-    };
-
-    let re = get_compiled_regexp(interp, obj)?;
-
-    // Use ToString abstract operation (calls object's toString if needed)
-    let input_arg = args.first().cloned().unwrap_or(JsValue::Undefined);
-    let input = interp.coerce_to_string(&input_arg)?.to_string();
-
-    let is_match = re
-        .is_match(&input)
-        .map_err(|e| JsError::syntax_error(e, 0, 0))?;
-    Ok(Guarded::unguarded(JsValue::Boolean(is_match)))
+    // test(s) is `exec(s) !== null`: the same search with the same lastIndex bookkeeping,
+    // so a global or sticky regex resumes where the previous match ended
+    let result = regexp_exec(interp, this, args)?;
+    Ok(Guarded::unguarded(JsValue::Boolean(!matches!(
+        result.value,
+        JsValue::Null
+    ))))
 }
 
 pub fn regexp_exec(
